@@ -6,6 +6,7 @@ pub mod c02;
 pub mod c04;
 pub mod c05;
 pub mod c06;
+pub mod c07;
 pub mod c09;
 pub mod c12;
 pub mod c16;
@@ -17,6 +18,7 @@ pub fn lookup(id: &str) -> Option<&'static dyn Property> {
         "C04" => Some(&c04::C04),
         "C05" => Some(&c05::C05),
         "C06" => Some(&c06::C06),
+        "C07" => Some(&c07::C07),
         "C09" => Some(&c09::C09),
         "C12" => Some(&c12::C12),
         "C16" => Some(&c16::C16),
